@@ -5,7 +5,10 @@
     int-typed Symbol} evaluated on a grid of symbol values: the tree built through the overloads must have exactly the value
     of the unsimplified node (C semantics: int/int truncates); float_product on all subsets of the kinds;
     MultiIndex.global_index for all shapes with <= 3 dimensions of size <= 3 (and a size-1 / size-4 axis) and all index values
-    vs row-major flattening.
+    vs row-major flattening.  The depth-1 cases are repeated in fresh interpreters under priming histories (ints wrapped first,
+    floats wrapped first, after a complete kernel generation); ALL depth-2 compositions (a op1 b) op2 c / c op2 (a op1 b)
+    over the same kinds are built through the overloads at both levels and compared with the tree of plain nodes wherever
+    the plain value is finite (a fold that changes the C type of a sub-expression surfaces one level up as an integer division).
 (2) optimiser: every kernel of the corpus generated with the passes (fuse_sections, fuse_loops, licm) enabled vs each
     individually and all jointly disabled; the COMPILED kernels must agree on identical inputs for every local entity /
     code pair (quick-mode enumeration of C02), to rounding.
@@ -16,6 +19,7 @@ from __future__ import annotations
 import itertools
 import json
 import math
+import re
 
 import numpy as np
 
@@ -137,6 +141,109 @@ def check_operators():
     return n, fails
 
 
+def _finite(v):
+    return isinstance(v, int) or (isinstance(v, (float, np.floating)) and math.isfinite(v))
+
+
+def check_compositions(part=None):
+    """Depth 2: (a op1 b) op2 c and c op2 (a op1 b), both levels built through the overloads, against the tree of plain nodes.
+    A fold that keeps the value but changes the C type of a sub-expression (1.0 * i -> i) shows up one level higher (int division).
+    Judged where the plain operation's value is finite (folds of zeros assume finite operands)."""
+    import ffcx.codegeneration.lnodes as L
+
+    kinds = operand_kinds(L)
+    ops = [("+", lambda a, b: a + b, L.Add), ("-", lambda a, b: a - b, L.Sub), ("*", lambda a, b: a * b, L.Mul), ("/", lambda a, b: a / b, L.Div)]
+    fails = []
+    n = 0
+    outer = kinds if part is None else kinds[part[0]::part[1]]
+    with np.errstate(all="ignore"):
+        for (da, na, va) in outer:
+            for (db, nb, vb), (dc, nc, vc) in itertools.product(kinds, repeat=2):
+                for s1, f1, c1 in ops:
+                    try:
+                        inner = f1(na, nb)
+                    except ValueError:
+                        continue
+                    ref_in = c1(na, nb)
+                    for s2, f2, c2 in ops:
+                        for side in (0, 1):
+                            n += 1
+                            try:
+                                tree = f2(inner, nc) if side == 0 else f2(nc, inner)
+                            except ValueError:
+                                continue
+                            ref = c2(ref_in, nc) if side == 0 else c2(nc, ref_in)
+                            for env in ENVS:
+                                try:
+                                    want = evaluate(ref, L, env)
+                                    if not (_finite(want) and _finite(evaluate(ref_in, L, env))):
+                                        continue
+                                except ZeroDivisionError:
+                                    continue
+                                try:
+                                    got = evaluate(tree, L, env)
+                                except ZeroDivisionError:
+                                    got = "division by zero"
+                                if want != got:
+                                    d = f"comp: ({da} {s1} {db}) {s2} {dc}" if side == 0 else f"comp: {dc} {s2} ({da} {s1} {db})"
+                                    fails.append((d, f"value {got!r} but the unsimplified operations give {want!r} (x={env['x']}, y={env['y']}, i={env['i']})"))
+                                    break
+    return n, fails
+
+
+def _comp_part(part):
+    return check_compositions(part)
+
+
+def prime(order):
+    """Histories for the fold checks: what the process wrapped through as_lexpr before (ints first / floats first / a whole kernel generation)."""
+    import ffcx.codegeneration.lnodes as L
+
+    if order == "ints-first":
+        for v in list(range(-3, 9)) + [0.0, 1.0, -1.0, 2.0, 3.0, 6.0]:
+            L.as_lexpr(v)
+    elif order == "floats-first":
+        for v in [0.0, -0.0, 1.0, -1.0, 2.0, 3.0, 6.0] + list(range(-3, 9)):
+            L.as_lexpr(v)
+    elif order == "after-kernel":
+        import basix.ufl
+        import ufl
+
+        import ffcx.compiler
+        import ffcx.options
+
+        m = ufl.Mesh(basix.ufl.element("P", "triangle", 1, shape=(2,)))
+        V = ufl.FunctionSpace(m, basix.ufl.element("P", "triangle", 2))
+        ffcx.compiler.compile_ufl_objects([ufl.Coefficient(V) * ufl.TrialFunction(V) * ufl.TestFunction(V) * ufl.dx + ufl.TrialFunction(V)('+') * ufl.TestFunction(V)('-') * ufl.dS],
+                                          options=ffcx.options.get_options({}), namespace="prime")
+
+
+def fold_child(order):
+    """Executed in a fresh interpreter: prime, then all depth-1 fold checks."""
+    prime(order)
+    out = []
+    for fn in (check_operators, check_float_product, check_multiindex):
+        n, f = fn()
+        out.append((n, f))
+    return out
+
+
+def run_fold_history(order):
+    import os
+    import subprocess
+    import sys
+
+    verif = os.path.dirname(os.path.dirname(os.path.dirname(os.path.abspath(__file__))))
+    env = dict(os.environ)
+    env["PYTHONPATH"] = verif + (os.pathsep + env["PYTHONPATH"] if env.get("PYTHONPATH") else "")
+    code = f"import json; from mc.checks import C17; print('FOLD-RESULT ' + json.dumps(C17.fold_child({order!r})))"
+    r = subprocess.run([sys.executable, "-W", "ignore", "-c", code], capture_output=True, text=True, env=env, timeout=1800)
+    line = [l for l in r.stdout.splitlines() if l.startswith("FOLD-RESULT ")]
+    if not line:
+        return dict(order=order, error=(r.stderr or r.stdout)[-600:])
+    return dict(order=order, result=json.loads(line[-1][len("FOLD-RESULT "):]))
+
+
 def check_float_product():
     import ffcx.codegeneration.lnodes as L
 
@@ -256,14 +363,32 @@ def work(item):
 def main():
     chk = Check(PID)
     cov = dict(states=0, transitions=0, traces_validated_against_impl=0, exhaustive=True)
-    n1, f1 = check_operators()
-    n2, f2 = check_float_product()
-    n3, f3 = check_multiindex()
-    cov["operator_cases"], cov["float_product_cases"], cov["multiindex_cases"] = n1, n2, n3
-    cov["states"] += n1 + n2 + n3
+    # depth-1 folds under every priming history, each in a fresh interpreter (a literal cache or any other state behind as_lexpr is history)
+    ORDERS = ["fresh", "ints-first", "floats-first", "after-kernel"]
+    n1 = n2 = n3 = 0
+    allf = []
+    for it, r in pmap(run_fold_history, ORDERS, desc="C17 folds"):
+        if "error" in r:
+            print("HARNESS-ERROR: fold history", it, r["error"][-400:])
+            raise SystemExit(2)
+        (a, fa), (b, fb), (c, fc) = r["result"]
+        n1, n2, n3 = n1 + a, n2 + b, n3 + c
+        allf += [(d, f"[history {it}] {why}") for d, why in fa + fb + fc]
+    # depth-2 compositions, split over the pool by the first operand
+    nparts = 16
+    n4 = 0
+    for it, (n, f) in pmap(_comp_part, [(k, nparts) for k in range(nparts)], desc="C17 compositions"):
+        n4 += n
+        allf += f
+    cov["operator_cases"], cov["float_product_cases"], cov["multiindex_cases"], cov["composition_cases"], cov["fold_histories"] = n1, n2, n3, n4, ORDERS
+    cov["states"] += n1 + n2 + n3 + n4
     grouped = {}
-    for d, why in f1 + f2 + f3:
-        grouped.setdefault(d.split(" [")[0], []).append((d, why))
+    for d, why in allf:
+        g = d.split(" [")[0]
+        if d.startswith("comp: "):
+            # one replay file per operator pair / operand-kind pattern (literal values abstracted)
+            g = re.sub(r"\((-?[0-9][0-9.e+-]*|-?inf|nan)\)", "(#)", d)
+        grouped.setdefault(g, []).append((d, why))
     for g, inst in sorted(grouped.items()):
         chk.violation(f"{PID}:fold:{g}", f"{inst[0][0]}: {inst[0][1]}", recipe=dict(kind="fold", case=g), observed=[dict(case=a, why=b) for a, b in inst[:10]])
     nodes, edges = audit.corpus(chk.thorough)
@@ -292,7 +417,7 @@ def main():
     cov["distinct_nontrivial"] = tot["ok"]
     cov["totals"] = tot
     cov["samples"] = samples or [dict(note="none")]
-    cov["rule"] = ("operator cases = operator x ordered pairs of operand kinds x {node/node, reflected with Python numbers} on 3 symbol environments; float_product on all subsets (size <= 3) of 18 kinds; "
+    cov["rule"] = ("depth-2 compositions over all ordered triples of operand kinds x operator pairs x both sides; depth-1 cases under 4 priming histories in fresh interpreters; operator cases = operator x ordered pairs of operand kinds x {node/node, reflected with Python numbers} on 3 symbol environments; float_product on all subsets (size <= 3) of 18 kinds; "
                    "MultiIndex for all shapes of <= 3 axes with sizes 1..4 x all index values; optimiser: per configuration the compiled kernels with passes on vs off (quick: all off, licm off; "
                    "thorough: each pass and all) on every entity/code pair of C02's quick mode")
     chk.finish(cov, assumptions=["values compared exactly for the folding rules (C semantics, sign of zero ignored) and to 1e-11 for optimiser variants (compiled kernels, reordered floating-point sums)",
@@ -303,11 +428,19 @@ def replay(path):
     doc = json.load(open(path))
     rec = doc["recipe"]
     if rec["kind"] == "fold":
-        for n, f in (check_operators(), check_float_product(), check_multiindex()):
-            for d, why in f:
-                if d.startswith(rec["case"]):
-                    print(d, why)
-        return 1
+        hits = 0
+        allf = []
+        for o in ("fresh", "ints-first", "floats-first", "after-kernel"):
+            r = run_fold_history(o)
+            for n, f in r.get("result", []):
+                allf += [(d, f"[history {o}] {why}") for d, why in f]
+        allf += check_compositions()[1]
+        want = {c["case"] for c in doc.get("observed", []) if isinstance(c, dict) and "case" in c}
+        for d, why in allf:
+            if d in want or d.startswith(rec["case"]):
+                print(d, why)
+                hits += 1
+        return 1 if hits else 0
     r = work(("replay", rec["config"], rec.get("seed", 0), rec.get("thorough", False)))
     print(r["status"])
     for f in r["failures"]:
